@@ -8,7 +8,7 @@ From Coquelicot Require Import Coquelicot.
 From OV.base Require Import Num.
 From OV.gen Require Import Gen_Math Gen_TensorMathFun Gen_TensorMathAD.
 From OV.model Require Import M_C10.
-From OV.proofs Require Import L_C10.
+From OV.proofs Require Import L_C10 L_C10_DK.
 Local Open Scope R_scope.
 
 (* (1) custom_root's tangent solve `lambda g, y: y / g(1.0)` inverts every linear map t |-> a t, a <> 0; together with the scalar
@@ -74,8 +74,32 @@ Theorem C10_helper_diagonal : forall (df : R -> R) rel lam (E : nat -> nat -> R)
   @jvp_helper R NumR df rel lam mid E i j = @h_matrix R NumR df rel lam i j * ((E i j + E j i) / 2).
 Proof. exact helper_diagonal. Qed.
 
+(* Daleckii-Krein, monomial case: for f = x^n the helper applied to A = diag(lam) returns, entry by entry, the derivative at t = 0 of
+   (A + t sym(E))^n -- the Frechet derivative of the matrix power in direction sym(E); dd n is the divided difference of x^n *)
+Theorem C10_daleckii_krein_monomial : forall n rel lam (E : Rm) i j, (i < 3)%nat -> (j < 3)%nat ->
+  (forall a b, a <> b -> rel a b = (a ^ n - b ^ n) / (a - b)) ->
+  is_derive (fun t => mpow (line (Dg lam) (fun a b => (E a b + E b a) / 2) t) n i j) 0
+            (@jvp_helper R NumR (fun x => INR n * x ^ (n - 1)) rel lam mid E i j).
+Proof. exact daleckii_krein_monomial. Qed.
+Theorem C10_divided_difference_of_monomial : forall n x y,
+  (x <> y -> dd n x y = (x ^ n - y ^ n) / (x - y)) /\ dd n x x = INR n * x ^ (n - 1) /\ dd n x y = dd n y x.
+Proof. intros n x y. exact (conj (dd_quotient n x y) (conj (dd_confluent n x) (dd_sym n x y))). Qed.
+(* NOT PROVED: C10_daleckii_krein for general (non-polynomial) f and non-diagonal A (needs the spectral calculus / orthogonal
+   change of basis V, where the helper's V (h o V^T E V) V^T form is only tied by correspondence); correctness of JAX's own
+   differentiation of the remaining primitives (compared with finite differences on every run). *)
+
+Example C10_nonvacuous :
+  (0 < 1 /\ 0 < 102 / 100 /\ 1 <> 102 / 100 /\ Rabs (1 - 102 / 100) <= 5 / 100 * Rmin 1 (102 / 100))
+  /\ (exists (phi : R -> R -> R) (y : R -> R) x0 a b dy,
+        filterdiff (fun xy : R * R => phi (fst xy) (snd xy)) (locally (x0, y x0)) (fun h => a * fst h + b * snd h)
+        /\ is_derive y x0 dy /\ b = 0 /\ dy <> 0).
+Proof. exact c10_nonvacuous. Qed.
+Example C10_dk_nonvacuous : dd 3 2 5 = (2 ^ 3 - 5 ^ 3) / (2 - 5) /\ dd 3 2 2 = INR 3 * 2 ^ (3 - 1)
+  /\ mpow (Dg (fun i => INR i + 1)) 2 1%nat 1%nat = 4.
+Proof. exact dk_nonvacuous. Qed.
+
 Print Assumptions C10_envelope.
 Print Assumptions C10_safe_sqrt_rule.
 Print Assumptions C10_relative_log_difference_accuracy.
 Print Assumptions C10_pow_relative_difference.
-Print Assumptions C10_helper_diagonal.
+Print Assumptions C10_daleckii_krein_monomial.
